@@ -4,7 +4,7 @@ import numpy as np
 from common import *
 
 ID = "C11"
-THEOREM_FILES = ["Summer.Props.C11", "Summer.Props.C11Source", "Summer.Props.C14Source"]
+THEOREM_FILES = ["Summer.Props.C11", "Summer.Props.C11Source", "Summer.Props.C14Source", "Summer.Props.C11EndToEnd"]
 TASK = "task"
 RULE = ("(a) random histories of 3-8 calls (run with new parameter values, run with rebuild, get_runner(base, dyn).run, repeated runs) on one "
         "model: after every run the outputs and derived outputs must be bit-identical to those of a freshly constructed identical model run "
